@@ -103,8 +103,8 @@ func (d *denoter) body(n *SNode, b *Body, labels []string, partial bool) cty.Val
 		}
 		c.blocks = append(c.blocks, k)
 	}
-	for name, req := range attrS {
-		if req && c.attrs[name] == nil {
+	for _, name := range SortedKeys(attrS) {
+		if req := attrS[name]; req && c.attrs[name] == nil {
 			d.fail("missing-required-argument", name)
 		}
 	}
